@@ -2,6 +2,7 @@ package main
 
 import (
 	"bytes"
+	"encoding/json"
 	"encoding/base64"
 	"fmt"
 	"os"
@@ -263,7 +264,9 @@ type worldPaths struct {
 	SrcArg, DstArg string // as passed on argv
 	LstArg         string
 	SrcAbs, DstAbs string // for the harness to inspect (DstAbs = where bytes land, after symlinks)
+	isFifo         bool
 	fifoData       []byte // when the source is a FIFO: what the feeder writes
+	stdinData      []byte // when the source is /dev/stdin: what is piped in
 }
 
 const nobody = 65534
@@ -365,16 +368,27 @@ func (s *Scenario) buildWorld(W string, src []byte, image []byte) (*worldPaths, 
 		srcAbs = filepath.Join(W, "out", dstName)
 		must(os.WriteFile(srcAbs, src, 0644))
 	case "emptyarg":
+	case "stdin": // `preprocessor | gosk /dev/stdin out`
+		wp.stdinData = append([]byte{}, src...)
+	case "relative", "dotslash":
+		must(os.WriteFile(srcAbs, src, 0644))
 	case "fifo": // a named pipe fed by a writer (stat size 0; e.g. the output of a preprocessor)
 		must(syscall.Mkfifo(srcAbs, 0666))
 		os.Chmod(srcAbs, 0666)
-		wp.fifoData = src
+		wp.fifoData, wp.isFifo = src, true
 	default:
 		panic(modelErr("unknown src kind " + s.SrcKind))
 	}
 	wp.SrcAbs, wp.SrcArg = srcAbs, srcAbs
-	if s.SrcKind == "emptyarg" {
+	switch s.SrcKind {
+	case "emptyarg":
 		wp.SrcArg = ""
+	case "stdin":
+		wp.SrcArg, wp.SrcAbs = "/dev/stdin", "/dev/stdin"
+	case "relative":
+		wp.SrcArg = filepath.Join("in", srcName)
+	case "dotslash":
+		wp.SrcArg = "./in/../in/" + srcName
 	}
 	// --- destination ---
 	dstAbs := filepath.Join(W, "out", dstName)
@@ -432,6 +446,10 @@ func (s *Scenario) buildWorld(W string, src []byte, image []byte) (*worldPaths, 
 		dstArg = dstAbs
 	case "emptyarg":
 		dstAbs, dstArg = filepath.Join(W, "out", "never-created"), ""
+	case "dev_null":
+		dstAbs, dstArg = "/dev/null", "/dev/null"
+	case "trailing_slash": // "out/name/" cannot be created as a file
+		dstArg = dstAbs + "/"
 	default:
 		panic(modelErr("unknown dst kind " + s.DstKind))
 	}
@@ -517,7 +535,7 @@ func (s *Scenario) srcReadable() bool {
 
 func (s *Scenario) dstCreatable() bool {
 	switch s.DstKind {
-	case "parent_missing", "parent_is_file", "is_dir", "longname", "emptyarg":
+	case "parent_missing", "parent_is_file", "is_dir", "longname", "emptyarg", "trailing_slash":
 		return false
 	case "ro_file", "ro_dir":
 		return s.Uid == 0
@@ -605,7 +623,9 @@ func judge(s *Scenario, e expectation, o *ScenarioOutcome, image []byte, imageCl
 	if imageClass == "ok" {
 		imgDesc = fmt.Sprintf("file:%s:%d", shaHex(image), len(image))
 	}
-	if s.DstKind == "dev_full" {
+	if s.DstKind == "dev_null" {
+		// nothing can be read back; only the pinned status (R5: exit 0) applies
+	} else if s.DstKind == "dev_full" {
 		if o.Exit == 0 && imageClass == "ok" && len(image) > 0 && (s.Shape == "src-dst" || s.Shape == "src-dst-lst" || s.Shape == "d-src-dst" || s.Shape == "four") && s.srcReadable() {
 			return mk("G1-exit0-without-image", "exit 0 although the image cannot have been written to /dev/full", "non-zero status", "exit 0")
 		}
@@ -764,10 +784,10 @@ func (c *c19Ctx) execute(s *Scenario, keepDir bool) (out *ScenarioOutcome, viol 
 		out.ImageSha = shaHex(image)
 	}
 	out.setDstAbs(wp.DstAbs)
-	if s.DstKind != "dev_full" {
+	if s.DstKind != "dev_full" && s.DstKind != "dev_null" {
 		out.DstPre = describePath(wp.DstAbs)
 	} else {
-		out.DstPre = "dev_full"
+		out.DstPre = s.DstKind
 	}
 	pre := snapshotWorld(W)
 	run := func(f *Fault) (ProcResult, int, []string) {
@@ -808,7 +828,7 @@ func (c *c19Ctx) execute(s *Scenario, keepDir bool) (out *ScenarioOutcome, viol 
 		cmd = append(cmd, argv...)
 		out.Cmdline = cmd
 		var feederDone chan struct{}
-		if wp.fifoData != nil {
+		if wp.isFifo {
 			feederDone = make(chan struct{})
 			go func() { // blocks in open until gosk opens the pipe for reading
 				defer close(feederDone)
@@ -818,7 +838,7 @@ func (c *c19Ctx) execute(s *Scenario, keepDir bool) (out *ScenarioOutcome, viol 
 				}
 			}()
 		}
-		pr := runProc(cliWatchdog, W, baseEnv("GOMAXPROCS=1", "HOME=/nonexistent"), cmd...)
+		pr := runProcStdin(cliWatchdog, W, baseEnv("GOMAXPROCS=1", "HOME=/nonexistent"), wp.stdinData, cmd...)
 		if feederDone != nil {
 			// release a feeder that nobody read from (gosk never opened the source)
 			if rf, err := os.OpenFile(wp.SrcAbs, os.O_RDONLY|syscall.O_NONBLOCK, 0); err == nil {
@@ -829,7 +849,8 @@ func (c *c19Ctx) execute(s *Scenario, keepDir bool) (out *ScenarioOutcome, viol 
 			}
 		}
 		if pr.TimedOut {
-			infraFail("gosk CLI watchdog expired: %v", cmd)
+			js, _ := json.Marshal(s)
+			infraFail("gosk CLI watchdog expired: %v\nscenario: %s", cmd, clip(js, 3000))
 		}
 		if pr.StartErr != "" {
 			infraFail("cannot start %v: %s", cmd, pr.StartErr)
@@ -867,10 +888,10 @@ func (c *c19Ctx) execute(s *Scenario, keepDir bool) (out *ScenarioOutcome, viol 
 			out.FaultFired = 1
 		}
 	}
-	if s.DstKind != "dev_full" {
+	if s.DstKind != "dev_full" && s.DstKind != "dev_null" {
 		out.DstPost = describePath(wp.DstAbs)
 	} else {
-		out.DstPost = "dev_full"
+		out.DstPost = s.DstKind
 	}
 	post := snapshotWorld(W)
 	dstRel, _ := filepath.Rel(W, wp.DstAbs)
@@ -904,6 +925,9 @@ func (c *c19Ctx) execute(s *Scenario, keepDir bool) (out *ScenarioOutcome, viol 
 			out.HealExit = &hx
 			out.HealDstPost = describePath(wp.DstAbs)
 			imgDesc := fmt.Sprintf("file:%s:%d", shaHex(image), len(image))
+			if s.DstKind == "dev_null" {
+				out.HealDstPost = imgDesc
+			}
 			if pr2.Exit != 0 || out.HealDstPost != imgDesc {
 				viol = &Violation{Property: "C19", Class: "H-no-recovery-after-fault", Detail: "after a faulted run, the same command run fault-free on the world left behind did not succeed with exactly the image",
 					Expected: "exit 0, " + imgDesc, Observed: fmt.Sprintf("exit %d, %s; output: %s", pr2.Exit, out.HealDstPost, clip(append(pr2.Stdout, pr2.Stderr...), 200))}
